@@ -23,22 +23,29 @@ inductive GenErr
   | emptyRange | emptyChoice | fewerJobs
 deriving Repr, DecidableEq, Inhabited
 
+/-- a raising call: the exception, and the draws the generator's `random.Random` has not consumed at that moment (the
+draws made before the failing call stay consumed: `randint(a, b)` with `a > b` and `choice([])` raise before drawing) -/
+structure GenFail where
+  err : GenErr
+  draws : List Nat
+deriving Repr, DecidableEq, Inhabited
+
 /-- `rng.randint(a, b)` on naturals -/
-def randintN (a b : Nat) (draws : List Nat) : Except GenErr (Nat × List Nat) :=
-  if a ≤ b then .ok (a + draws.headD 0 % (b - a + 1), draws.tail) else .error .emptyRange
+def randintN (a b : Nat) (draws : List Nat) : Except GenFail (Nat × List Nat) :=
+  if a ≤ b then .ok (a + draws.headD 0 % (b - a + 1), draws.tail) else .error ⟨.emptyRange, draws⟩
 
 /-- `rng.randint(a, b)` on integers -/
-def randintI (a b : Int) (draws : List Nat) : Except GenErr (Int × List Nat) :=
-  if a ≤ b then .ok (a + ((draws.headD 0 : Nat) : Int) % (b - a + 1), draws.tail) else .error .emptyRange
+def randintI (a b : Int) (draws : List Nat) : Except GenFail (Int × List Nat) :=
+  if a ≤ b then .ok (a + ((draws.headD 0 : Nat) : Int) % (b - a + 1), draws.tail) else .error ⟨.emptyRange, draws⟩
 
 /-- `rng.choice(seq)` -/
-def choiceN (seq : List Nat) (draws : List Nat) : Except GenErr (Nat × List Nat) :=
+def choiceN (seq : List Nat) (draws : List Nat) : Except GenFail (Nat × List Nat) :=
   match seq with
-  | [] => .error .emptyChoice
+  | [] => .error ⟨.emptyChoice, draws⟩
   | _ => .ok (seq.getD (draws.headD 0 % seq.length) 0, draws.tail)
 
 /-- `_choose_multiple_machines`: `k` machines drawn without replacement from a copy of `avail` -/
-def chooseMany : Nat → List Nat → List Nat → Except GenErr (List Nat × List Nat)
+def chooseMany : Nat → List Nat → List Nat → Except GenFail (List Nat × List Nat)
   | 0, _, draws => .ok ([], draws)
   | k + 1, avail, draws =>
     match choiceN avail draws with
@@ -50,7 +57,7 @@ def chooseMany : Nat → List Nat → List Nat → Except GenErr (List Nat × Li
 
 /-- `create_random_operation(available_machines)`: returns the operation, the (possibly shrunk) shared list of
 available machines of the job, and the remaining draws -/
-def genOp (p : GenParams) (avail : List Nat) (draws : List Nat) : Except GenErr (Op × List Nat × List Nat) :=
+def genOp (p : GenParams) (avail : List Nat) (draws : List Nat) : Except GenFail (Op × List Nat × List Nat) :=
   match randintI p.durRange.1 p.durRange.2 draws with
   | .error e => .error e
   | .ok (dur, d1) =>
@@ -66,7 +73,7 @@ def genOp (p : GenParams) (avail : List Nat) (draws : List Nat) : Except GenErr 
       | .error e => .error e
       | .ok (m, d2) => .ok (⟨[m], dur⟩, if p.allowRecirc then avail else avail.erase m, d2)
 
-def genJob (p : GenParams) : Nat → List Nat → List Nat → Except GenErr (List Op × List Nat)
+def genJob (p : GenParams) : Nat → List Nat → List Nat → Except GenFail (List Op × List Nat)
   | 0, _, draws => .ok ([], draws)
   | n + 1, avail, draws =>
     match genOp p avail draws with
@@ -76,7 +83,7 @@ def genJob (p : GenParams) : Nat → List Nat → List Nat → Except GenErr (Li
       | .error e => .error e
       | .ok (ops, d2) => .ok (op :: ops, d2)
 
-def genJobs (p : GenParams) (numMachines : Nat) : Nat → List Nat → Except GenErr (List (List Op) × List Nat)
+def genJobs (p : GenParams) (numMachines : Nat) : Nat → List Nat → Except GenFail (List (List Op) × List Nat)
   | 0, draws => .ok ([], draws)
   | n + 1, draws =>
     match genJob p numMachines (List.range numMachines) draws with
@@ -87,7 +94,7 @@ def genJobs (p : GenParams) (numMachines : Nat) : Nat → List Nat → Except Ge
       | .ok (jobs, d2) => .ok (job :: jobs, d2)
 
 /-- `generate(num_jobs=None, num_machines=None)` -/
-def generate (p : GenParams) (draws : List Nat) : Except GenErr (Instance × Nat × List Nat) :=
+def generate (p : GenParams) (draws : List Nat) : Except GenFail (Instance × Nat × List Nat) :=
   match randintN p.jobsRange.1 p.jobsRange.2 draws with
   | .error e => .error e
   | .ok (nj, d1) =>
@@ -106,14 +113,17 @@ structure GenState where
   iter : Nat := 0
 deriving Repr, DecidableEq, Inhabited
 
-/-- one `generate()` call on the generator object: instance, its name suffix number, new state -/
-def GenState.next (p : GenParams) (g : GenState) : Except GenErr (Instance × Nat × GenState) :=
+/-- one `generate()` call on the generator object: instance, its name suffix number, new state.  When it raises, the
+draws made before the failing call stay consumed and `_counter` is not advanced (`_next_name()` is only reached on
+success) -/
+def GenState.next (p : GenParams) (g : GenState) : Except (GenErr × GenState) (Instance × Nat × GenState) :=
   match generate p g.draws with
-  | .error e => .error e
+  | .error f => .error (f.err, { g with draws := f.draws })
   | .ok (I, _, d) => .ok (I, g.counter + 1, { g with draws := d, counter := g.counter + 1 })
 
-/-- `list(generator)` with `iteration_limit = n`: `__iter__` resets the iteration counter, `__next__` stops at `n` -/
-def iterate (p : GenParams) : Nat → GenState → Except GenErr (List (Instance × Nat) × GenState)
+/-- `list(generator)` with `iteration_limit = n`: `__iter__` resets the iteration counter, `__next__` stops at `n`.
+A raising `generate()` ends the pass with the exception and the generator state it leaves behind -/
+def iterate (p : GenParams) : Nat → GenState → Except (GenErr × GenState) (List (Instance × Nat) × GenState)
   | 0, g => .ok ([], g)
   | n + 1, g =>
     match g.next p with
